@@ -52,6 +52,8 @@ INITS = {
     'expired': [('set', 'a', ('$T', 13), 1, None), ('tick', 2)],
     'two': [('set', 'b', 1, None, None), ('set', 'a', 7, None, None)],
     'fileq': [('push', ('$T', 13), None, 'back', None, None)],
+    'yvals': [('set', 'c', ('$Y', 3), None, None),
+              ('set', 'd', ('$Y', 4, 30), None, None)],
 }
 
 
@@ -116,6 +118,20 @@ def plan(tier):
                     (('add', 'c', 1, None, None), ('get', 'c', 0)),
                     (('set', 'a', BIG, None, None), ('len',))):
         units.append(([[('iternext',), look], [w]], 'two', 'own', MFS, 2))
+    # values whose pickling hooks run Python code: a scheduling point inside
+    # Disk.store / Disk.fetch, so that threads sharing one Cache (and its
+    # Disk object) interleave in the middle of serialization
+    Y1, Y2 = ('set', 'a', ('$Y', 1), None, None), \
+        ('set', 'b', ('$Y', 2, 30), None, None)
+    for st in (MFS, {}):
+        for mode in ('shared', 'own'):
+            units.append(([[Y1], [Y2]], 'absent', mode, st, None))
+            units.append(([[Y1], [('get', 'c', 0)]], 'yvals', mode, st, None))
+            units.append(([[('get', 'd', 0)], [('get', 'c', 0)]], 'yvals',
+                          mode, st, None))
+            units.append(([[Y1, ('get', 'a', 0)],
+                           [('set', 'a', 5, None, None)]], 'yvals', mode, st,
+                          2))
     # a handle being opened while another client writes (constructor runs
     # ~70 statements against the shared directory)
     for w in (SET_FILE, ('set', 'c', 1, None, None), POP, DELETE, INCR):
